@@ -14,7 +14,7 @@ import traceback
 
 import z3
 
-from . import loader, summaries, models, shapes, collections, melmodels, bigmodels
+from . import loader, summaries, models, shapes, collections, melmodels, bigmodels, vmmodels
 import re as _re
 from .interp import Inconclusive, Unsupported, simp, G
 from .mirparse import MirSyntax
